@@ -381,7 +381,12 @@ pub fn map_segment<Ty: EdgeType + Clone, S: BuildHasher + Default + Clone>(rng: 
         } else if r < 83 {
             let k = 1 + rng.below(3);
             let edges: Vec<(i32, i32, i32)> = (0..k).map(|_| (key(rng), key(rng), next())).collect();
-            g.extend(edges.iter().cloned());
+            // the IntoWeightedEdge forms: owned triples, triples with borrowed weights (what all_edges() yields), references
+            match rng.below(3) {
+                0 => g.extend(edges.iter().cloned()),
+                1 => g.extend(edges.iter().map(|t| (t.0, t.1, &t.2))),
+                _ => g.extend(edges.iter()),
+            }
             (json!({"op":"extend","edges":edges.iter().map(|x| json!([x.0, x.1, x.2])).collect::<Vec<_>>()}), rs("ok"))
         } else if r < 85 {
             g.clear();
@@ -484,6 +489,11 @@ fn map_obs<Ty: EdgeType, S: BuildHasher>(g: &GraphMap<i32, i32, Ty, S>, _rng: &m
         "nodes": g.nodes().map(|n| json!([n, n])).collect::<Vec<_>>(),
         "edges": g.all_edges().map(|(s, t, w)| json!([s, t, *w])).collect::<Vec<_>>(),
         "ix": g.nodes().map(|n| json!([n, NodeIndexable::to_index(g, n), NodeIndexable::from_index(g, NodeIndexable::to_index(g, n))])).collect::<Vec<_>>(),
+        // EdgeIndexable: a compact numbering of the edges, inverse to from_index, below edge_bound
+        "eix": g.all_edges().map(|(s, t, _)| { use petgraph::visit::EdgeIndexable;
+                    let i = EdgeIndexable::to_index(g, (s, t)); let back = EdgeIndexable::from_index(g, i);
+                    json!([i, back == (s, t) || (!g.is_directed() && back == (t, s))]) }).collect::<Vec<_>>(),
+        "ebound": petgraph::visit::EdgeIndexable::edge_bound(g),
         "bound": 1000, "per": per, "pairs": pairs, "via_graph": h}));
 }
 
